@@ -1,1 +1,293 @@
-"""placeholder"""
+"""C17 - resize bounds, flips, rotations: bounds by construction, no zero dimension, dispatch agreement, operation table."""
+
+from __future__ import annotations
+
+import ast
+import re
+
+from . import rule
+from ..model import Unresolved, walk_scope, parent, enclosing_function, qualname
+from ..paths import U, Path, Evaluator
+from .. import q
+
+UT = 'openfilter/filter_runtime/filters/util.py'
+VI = 'openfilter/filter_runtime/filters/video_in.py'
+
+
+def util_size_paths(repo):
+    c = repo.__dict__.setdefault('_c17', {})
+    if 'util' not in c:
+        mod, fn = repo.find(f'{UT}::Util.execute_xform_size')
+        ev = Evaluator(repo, mod)
+        c['util'] = (mod, fn, ev.run(fn.body))
+    return c['util']
+
+
+def video_region(repo):
+    mod, fn = repo.find(f'{VI}::VideoReader.thread_reader')
+    cands = [n for n in walk_scope(fn) if isinstance(n, ast.If) and any(isinstance(c, ast.Call) and U(c.func) == 'cv2.resize' for c in ast.walk(n))]
+    cands = [n for n in cands if not any(q.inside(n, m) for m in cands)]
+    if len(cands) != 1:
+        raise Unresolved(f'{VI}: thread_reader: expected one outermost `if` that hosts the cv2.resize calls, found {len(cands)}')
+    return mod, fn, cands[0]
+
+
+def video_paths(repo):
+    c = repo.__dict__.setdefault('_c17', {})
+    if 'video' not in c:
+        mod, fn, region = video_region(repo)
+        ev = Evaluator(repo, mod)
+        c['video'] = (mod, fn, region, ev.run([region]))
+    return c['video']
+
+
+def resize_calls(p: Path):
+    return [e for e in p.events if e.kind == 'call' and e.term == 'cv2.resize' and e.value is not None and len(e.value.args) >= 2]
+
+
+def bounded(term: ast.AST, bound: str, fn: str) -> bool:
+    """term is fn(..., bound, ...) possibly wrapped in max(<positive literal>, .)"""
+    if isinstance(term, ast.Call) and isinstance(term.func, ast.Name):
+        if term.func.id == fn and any(U(a) == bound for a in term.args) and not term.keywords:
+            return True
+        if term.func.id == 'max' and fn == 'min' and len(term.args) == 2:
+            lits = [a for a in term.args if isinstance(a, ast.Constant) and isinstance(a.value, int) and a.value >= 1]
+            rest = [a for a in term.args if a not in lits]
+            if len(lits) == 1 and len(rest) == 1:
+                return bounded(rest[0], bound, fn)
+    return False
+
+
+def computed(term: ast.AST) -> bool:
+    """does the term contain an int(<arithmetic>) - a dimension computed by scaling?"""
+    for n in ast.walk(term):
+        if isinstance(n, ast.Call) and isinstance(n.func, ast.Name) and n.func.id == 'int' and n.args and any(isinstance(x, ast.BinOp) and isinstance(x.op, (ast.Mult, ast.Div)) for x in ast.walk(n.args[0])):
+            return True
+    return False
+
+
+def clamped(term: ast.AST) -> bool:
+    """every computed int(...) inside term sits under a max(<positive literal>, .)"""
+    def walk(n, under):
+        if isinstance(n, ast.Call) and isinstance(n.func, ast.Name) and n.func.id == 'max' and any(isinstance(a, ast.Constant) and isinstance(a.value, (int, float)) and a.value >= 1 for a in n.args):
+            under = True
+        if isinstance(n, ast.Call) and isinstance(n.func, ast.Name) and n.func.id == 'int' and computed(n) and not under:
+            return False
+        return all(walk(c, under) for c in ast.iter_child_nodes(n))
+    return walk(term, False)
+
+
+def action_of(p: Path):
+    for a in ('resize', 'maxsize', 'minsize'):
+        if p.facts.get(f"eq('{a}', xform.action)") is True:
+            return a
+    if p.facts.get("eq('resize', xform.action)") is False and p.facts.get("eq('maxsize', xform.action)") is False:
+        return 'minsize'
+    return None
+
+
+@rule('C17.R1', 'bounds by construction: the size handed to cv2.resize is (min(., width), min(., height)) for maxsize, max for minsize, exactly the configured pair for resize')
+def r1(rr, repo):
+    mod, fn, paths = util_size_paths(repo)
+    rr.paths += len(paths)
+    seen = set()
+    for p in paths:
+        act = action_of(p)
+        for e in resize_calls(p):
+            size = e.value.args[1]
+            if not (isinstance(size, ast.Tuple) and len(size.elts) == 2):
+                rr.unresolved('cv2.resize size is not a 2-tuple', mod, e.node, witness=U(size)[:100], key='size-shape')
+                continue
+            W, H = size.elts
+            seen.add(act)
+            if act == 'maxsize':
+                rr.ob('Util maxsize: both dimensions are capped by the configured bounds (min(., width), min(., height))', bounded(W, 'xform.width', 'min') and bounded(H, 'xform.height', 'min'), mod, e.node,
+                      witness=U(size)[:200], key='util-maxsize')
+            elif act == 'minsize':
+                rr.ob('Util minsize: both dimensions are floored by the configured bounds (max(., width), max(., height))', bounded(W, 'xform.width', 'max') and bounded(H, 'xform.height', 'max'), mod, e.node,
+                      witness=U(size)[:200], key='util-minsize')
+            elif act == 'resize':
+                rr.ob('Util resize: exactly the configured (width, height)', U(W) == 'xform.width' and U(H) == 'xform.height', mod, e.node, witness=U(size)[:200], key='util-resize')
+            else:
+                rr.unresolved('cv2.resize reached for an unclassified action', mod, e.node, witness=p.pc_text()[:200], key='util-action')
+            src = e.value.args[0]
+            rr.ob('the image resized is the frame\'s own', U(src) == 'frame.image', mod, e.node, witness=U(src), key='util-src')
+    rr.floor('size actions reaching cv2.resize in Util', len(seen - {None}), 3, mod, fn)
+    vmod, vfn, region, vpaths = video_paths(repo)
+    rr.paths += len(vpaths)
+    n = 0
+    for p in vpaths:
+        mx = p.facts.get('truthy(maxsize)')
+        for e in resize_calls(p):
+            size = e.value.args[1]
+            if not (isinstance(size, ast.Tuple) and len(size.elts) == 2):
+                rr.unresolved('video reader: cv2.resize size is not a 2-tuple', vmod, e.node, witness=U(size)[:100], key='vsize-shape')
+                continue
+            W, H = size.elts
+            n += 1
+            if mx is True:
+                rr.ob('video reader maxsize: both dimensions are capped (min(width, .), min(height, .))', bounded(W, 'width', 'min') and bounded(H, 'height', 'min'), vmod, e.node, witness=U(size)[:200], key='video-maxsize')
+            elif mx is False:
+                okw = U(W) == 'width' or (computed(W) and 'height' in U(W) or computed(W) and 'width' in U(W))
+                okh = U(H) == 'height' or (computed(H))
+                asp = p.facts.get('truthy(aspect)')
+                if asp is False:
+                    rr.ob('video reader resize without aspect: exactly (width, height)', U(W) == 'width' and U(H) == 'height', vmod, e.node, witness=U(size)[:200], key='video-resize-exact')
+                else:
+                    rr.ob('video reader aspect resize: each dimension is the bound itself or the other dimension scaled into it', okw and okh and (U(W) == 'width' or U(H) == 'height' or ('min(' in U(W) and 'min(' in U(H))), vmod, e.node,
+                          witness=U(size)[:200], key=f'video-resize-aspect|{U(W) == "width"}|{U(H) == "height"}')
+    rr.floor('cv2.resize calls reached in the video reader', n, 4, vmod, vfn)
+    # sibling agreement on which side is scaled (maxsize): compare the decision structure of the two implementations
+    def kind(term, hb, wb):
+        ints = [n for n in ast.walk(term) if isinstance(n, ast.Call) and isinstance(n.func, ast.Name) and n.func.id == 'int' and computed(n)]
+        if not ints:
+            return 'orig'
+        t = U(ints[0])
+        if 'min(' in t or 'max(' in t:
+            return 'by-smaller-ratio'
+        names = {U(x) for x in ast.walk(ints[0]) if isinstance(x, (ast.Name, ast.Attribute))}
+        if wb in names:
+            return 'by-width-ratio'
+        if hb in names:
+            return 'by-height-ratio'
+        return 'other'
+
+    def table(paths, h0, w0, hb, wb, sel):
+        t = {}
+        for p in paths:
+            if not sel(p):
+                continue
+            for e in resize_calls(p):
+                size = e.value.args[1]
+                if not isinstance(size, ast.Tuple):
+                    continue
+                hover = q.order(p, h0, hb)
+                wover = q.order(p, w0, wb)
+                t.setdefault((hover == '>', wover == '>'), set()).add((kind(size.elts[0], hb, wb), kind(size.elts[1], hb, wb)))
+        return t
+    tu = table(paths, 'frame.height', 'frame.width', 'xform.height', 'xform.width', lambda p: action_of(p) == 'maxsize' and p.facts.get("truthy(xform.get('aspect', True))") is True)
+    tv = table(vpaths, 'image.shape[0]', 'image.shape[1]', 'height', 'width', lambda p: p.facts.get('truthy(maxsize)') is True and p.facts.get('truthy(aspect)') is True)
+    canon = lambda t: t
+    common = set(tu) & set(tv)
+    rr.floor('over/under cases evaluated in both maxsize implementations', len(common), 3, mod, fn)
+    for k in sorted(common, key=str):
+        a, b = canon(tu)[k], canon(tv)[k]
+        rr.ob(f'Util and the video reader scale the same side for the case (height over bound: {k[0]}, width over bound: {k[1]})', a == b, mod, fn, witness=f'util={sorted(a)} video={sorted(b)}', key=f'sibling|{k}')
+
+
+@rule('C17.R2', 'no dimension can reach cv2 as 0: on the shrinking paths every computed dimension that flows into a cv2.resize size is clamped from below by a positive constant')
+def r2(rr, repo):
+    mod, fn, paths = util_size_paths(repo)
+    n = 0
+    for p in paths:
+        act = action_of(p)
+        if act != 'maxsize':
+            continue   # resize uses the configured pair; minsize scales by a factor > 1 (dimension >= 1 stays >= 1)
+        for e in resize_calls(p):
+            size = e.value.args[1]
+            if isinstance(size, ast.Tuple):
+                for nm, d in zip(('width', 'height'), size.elts):
+                    if computed(d):
+                        n += 1
+                        rr.ob(f'Util maxsize: the computed {nm} is clamped to >= 1 before cv2.resize', clamped(d), mod, e.node, witness=U(d)[:160], key=f'util-zero|{nm}')
+    rr.floor('computed dimensions on Util maxsize paths', n, 2, mod, fn)
+    vmod, vfn, region, vpaths = video_paths(repo)
+    k = 0
+    for p in vpaths:
+        for e in resize_calls(p):
+            size = e.value.args[1]
+            if isinstance(size, ast.Tuple):
+                for nm, d in zip(('width', 'height'), size.elts):
+                    if computed(d):
+                        k += 1
+                        kind = 'maxsize' if p.facts.get('truthy(maxsize)') is True else 'resize'
+                        rr.ob(f'video reader {kind}: the computed {nm} is clamped to >= 1 before cv2.resize', clamped(d), vmod, e.node, witness=U(d)[:160], key=f'video-zero|{kind}|{nm}|{U(d)[:50]}')
+    rr.floor('computed dimensions in the video reader', k, 4, vmod, vfn)
+
+
+def action_literals(fn, var_names=('action',)):
+    out = set()
+    for n in ast.walk(fn):
+        if isinstance(n, ast.Compare) and len(n.ops) == 1 and isinstance(n.left, ast.Name) and n.left.id in var_names:
+            c = n.comparators[0]
+            if isinstance(n.ops[0], ast.Eq) and q.const_str(c):
+                out.add(c.value)
+            elif isinstance(n.ops[0], ast.In) and isinstance(c, (ast.Tuple, ast.List, ast.Set)):
+                out.update(e.value for e in c.elts if q.const_str(e))
+    return out
+
+
+@rule('C17.R3', 'dispatch agreement: the set of actions normalize_config accepts equals the set execute_xforms (and its helpers) executes; parameterless actions reject parameters')
+def r3(rr, repo):
+    mod, norm = repo.find(f'{UT}::Util.normalize_config')
+    _, exe = repo.find(f'{UT}::Util.execute_xforms')
+    acc = action_literals(norm)
+    done = action_literals(exe)
+    rr.floor('actions accepted by normalize_config', len(acc), 13, mod, norm)
+    rr.ob('accepted actions == executed actions', acc == done, mod, exe, witness=f'accepted-only={sorted(acc - done)} executed-only={sorted(done - acc)}', key='dispatch-sets')
+    # unknown action raises on both sides
+    for fn, label in ((norm, 'normalize_config'), (exe, 'execute_xforms')):
+        raises = [r for r in ast.walk(fn) if isinstance(r, ast.Raise) and r.exc is not None and 'xform' in U(r.exc) and ('invalid' in U(r.exc) or 'unknown' in U(r.exc))]
+        rr.ob(f'{label}: an unknown action raises', bool(raises), mod, fn, key=f'unknown-raises|{label}')
+    # parameterless actions
+    paramless = None
+    for n in ast.walk(norm):
+        if isinstance(n, ast.If) and isinstance(n.test, ast.Compare) and isinstance(n.test.ops[0], ast.In) and isinstance(n.test.comparators[0], ast.Tuple) \
+                and any(isinstance(b, ast.If) and isinstance(b.test, ast.Name) and any(isinstance(r, ast.Raise) for r in b.body) for b in n.body):
+            paramless = {e.value for e in n.test.comparators[0].elts if q.const_str(e)}
+    sized = {'resize', 'maxsize', 'minsize', 'box'}
+    rr.ob('every action without parameters is in the group that rejects parameters', paramless is not None and paramless == acc - sized, mod, norm, witness=str(sorted(paramless or ())), key='paramless')
+    # size actions dispatch to the size helper which distinguishes all three
+    _, szf = repo.find(f'{UT}::Util.execute_xform_size')
+    lits = set()
+    for n in ast.walk(szf):
+        if isinstance(n, ast.Compare) and isinstance(n.ops[0], ast.Eq) and q.const_str(n.comparators[0]) and 'action' in U(n.left):
+            lits.add(n.comparators[0].value)
+    rr.ob('the size helper distinguishes resize / maxsize (minsize is the remaining case)', {'resize', 'maxsize'} <= lits, mod, szf, witness=str(sorted(lits)), key='size-helper')
+
+
+@rule('C17.R4', 'operation table: flipx/flipy/flipboth -> cv2.flip codes 1/0/-1, rotcw/rotccw -> the two 90 degree constants, fmt* -> the accessor of that format; box colour reversed iff BGR, averaged iff GRAY')
+def r4(rr, repo):
+    mod, exe = repo.find(f'{UT}::Util.execute_xforms')
+    loops = [n for n in walk_scope(exe) if isinstance(n, ast.For)]
+    if len(loops) != 1:
+        raise Unresolved(f'{UT}: execute_xforms: expected one loop over the xforms')
+    ev = Evaluator(repo, mod)
+    start = Path()
+    paths = ev.run(loops[0].body, start)
+    rr.paths += len(paths)
+    want = {
+        'flipx': r'Frame\(cv2\.flip\(frame\.image, 1\), frame\)', 'flipy': r'Frame\(cv2\.flip\(frame\.image, 0\), frame\)',
+        'flipboth': r'Frame\(cv2\.flip\(frame\.image, -1\), frame\)', 'rotcw': r'Frame\(cv2\.rotate\(frame\.image, cv2\.ROTATE_90_CLOCKWISE\), frame\)',
+        'rotccw': r'Frame\(cv2\.rotate\(frame\.image, cv2\.ROTATE_90_COUNTERCLOCKWISE\), frame\)',
+        'fmtrgb': r'frame\.rgb', 'fmtbgr': r'frame\.bgr', 'fmtgray': r'frame\.gray',
+    }
+    seen = set()
+    for p in paths:
+        act = [k[4:k.index("',")] for k, v in p.facts.items() if k.startswith("eq('") and k.endswith(', xform.action)') and v is True]
+        if len(act) != 1 or act[0] not in want:
+            continue
+        b = [e for e in p.events if e.kind == 'bind' and e.term == 'frame']
+        seen.add(act[0])
+        rr.ob(f'{act[0]} is implemented by the documented operation', bool(b) and re.fullmatch(want[act[0]], b[-1].args[0]) is not None, mod, b[-1].node if b else exe, witness=b[-1].args[0][:120] if b else '', key=f'op|{act[0]}')
+    rr.floor('table rows evaluated', len(seen), 8, mod, exe)
+    _, box = repo.find(f'{UT}::Util.execute_xform_box')
+    ev = Evaluator(repo, mod)
+    bps = ev.run(box.body)
+    for p in bps:
+        cnone = p.facts.get('isnone(xform.color)')
+        gray = p.facts.get('truthy(frame.is_gray)')
+        bgr = p.facts.get('truthy(frame.is_bgr)')
+        rect = [e for e in p.events if e.kind == 'call' and e.term == 'cv2.rectangle']
+        if cnone is False and rect and len(rect[0].args) >= 4:
+            c = rect[0].args[3]
+            if gray is True:
+                rr.ob('box colour on a GRAY frame is the mean of the RGB colour', 'sum(xform.color)' in c and '/ 3' in c, mod, rect[0].node, witness=c, key='box-gray')
+            elif bgr is True:
+                rr.ob('box colour on a BGR frame is the RGB colour reversed', c == 'xform.color[::-1]', mod, rect[0].node, witness=c, key='box-bgr')
+            elif bgr is False:
+                rr.ob('box colour on an RGB frame is used as given', c == 'xform.color', mod, rect[0].node, witness=c, key='box-rgb')
+            elif gray is False:
+                rr.violated('the channel order of the box colour is decided without testing whether the frame is BGR', mod, rect[0].node, witness=p.pc_text(), key='box-untested')
+        if rect:
+            rr.ob('the box is drawn on a writable copy-on-need of the frame image (frame.rw.image), filled (-1)', rect[0].args[0] == 'frame.rw.image' and rect[0].args[-1] in ('-1',), mod, rect[0].node, witness=str(rect[0].args[:1]), key='box-rw')
